@@ -344,6 +344,20 @@ func workCurve(rc *recorder, rng *rand.Rand, scale int) {
 		rc.out("EdwardsPoint.TripleScalarMulBasepointVartime", bb(curve.NewEdwardsPoint().TripleScalarMulBasepointVartime(s, P.Lib, s2, Q.Lib).IsSmallOrder()))
 		rc.out("EdwardsPoint.ExpandedTripleScalarMulBasepointVartime", bb(curve.NewEdwardsPoint().ExpandedTripleScalarMulBasepointVartime(s, P.Exp, s2, Q.Lib).IsSmallOrder()))
 		rc.out("EdwardsPoint.SetExpanded/Point", encE(curve.NewEdwardsPoint().SetExpanded(P.Exp)), encE(P.Exp.Point()))
+		// receivers that alias an operand, and the exported constant objects as operands
+		acc := curve.NewEdwardsPoint().Set(P.Lib)
+		rc.out("EdwardsPoint.MultiscalarMul(aliased)", encE(acc.MultiscalarMul([]*scalar.Scalar{s, s2}, []*curve.EdwardsPoint{acc, Q.Lib})))
+		acc = curve.NewEdwardsPoint().Set(P.Lib)
+		rc.out("EdwardsPoint.MultiscalarMulVartime(aliased)", encE(acc.MultiscalarMulVartime([]*scalar.Scalar{s, s2}, []*curve.EdwardsPoint{Q.Lib, acc})))
+		acc = curve.NewEdwardsPoint().Set(P.Lib)
+		rc.out("EdwardsPoint.DoubleScalarMulBasepointVartime(aliased)", encE(acc.DoubleScalarMulBasepointVartime(s, acc, s2)))
+		acc = curve.NewEdwardsPoint().Set(P.Lib)
+		rc.out("EdwardsPoint.TripleScalarMulBasepointVartime(aliased)", bb(acc.TripleScalarMulBasepointVartime(s, acc, s2, Q.Lib).IsSmallOrder()))
+		acc = curve.NewEdwardsPoint().Set(P.Lib)
+		rc.out("EdwardsPoint.Add/Sub/Neg/Mul(aliased)", encE(acc.Add(acc, acc)), encE(acc.Sub(acc, Q.Lib)), encE(acc.Neg(acc)), encE(acc.Mul(acc, s)), encE(acc.MulByCofactor(acc)), encE(acc.Sum([]*curve.EdwardsPoint{acc, acc})))
+		tp := curve.EIGHT_TORSION[i%8]
+		rc.out("EIGHT_TORSION as operand", encE(curve.NewEdwardsPoint().Add(P.Lib, tp)), encE(curve.NewEdwardsPoint().Sub(tp, Q.Lib)), encE(curve.NewEdwardsPoint().Mul(tp, s)), encE(curve.NewEdwardsPoint().Add(curve.ED25519_BASEPOINT_POINT, tp)), encE(curve.NewEdwardsPoint().MultiscalarMul([]*scalar.Scalar{s, s2}, []*curve.EdwardsPoint{tp, curve.ED25519_BASEPOINT_POINT})))
+		rc.out("RISTRETTO_BASEPOINT_POINT as operand", encR(curve.NewRistrettoPoint().Add(curve.RISTRETTO_BASEPOINT_POINT, curve.RISTRETTO_BASEPOINT_POINT)), encR(curve.NewRistrettoPoint().Mul(curve.RISTRETTO_BASEPOINT_POINT, s)))
 		var m, mo curve.MontgomeryPoint
 		m.SetEdwards(P.Lib)
 		mo.Mul(&m, s)
